@@ -17,6 +17,7 @@ from ngo.utils.ast import (
     AggAnalytics,
     Predicate,
     collect_ast,
+    collect_binding_information_body,
     global_vars_inside_body,
     global_vars_inside_head,
     is_predicate,
@@ -142,7 +143,9 @@ class InlineTranslator:
                 return False
         return True
 
-    def inline_body_aggregate(self, rule: AST, atom: AST, unique_vars: UniqueVariables) -> AST:
+    def inline_body_aggregate(
+        self, rule: AST, atom: AST, unique_vars: UniqueVariables, outer_vars: Optional[set[AST]] = None
+    ) -> AST:
         """inline rule into this body aggregate atom"""
         # pylint: disable=too-many-branches
         hatom = rule.head.atom
@@ -217,6 +220,17 @@ class InlineTranslator:
                 != replace_cond.atom.symbol.arguments[hv_pos]  # pylint: disable=undefined-loop-variable
             ):
                 return atom
+            # the groups of the helper have to stay apart: its other arguments must be part of the tuple
+            # or be fixed from outside of the aggregate
+            visible: set[AST] = set(outer_vars) if outer_vars is not None else set()
+            for term in replace_elem.terms[1:]:
+                visible.update(collect_ast(term, "Variable"))
+            for pos, arg in enumerate(replace_cond.atom.symbol.arguments):
+                if pos != hv_pos and any(  # pylint: disable=undefined-loop-variable
+                    var.name == "_" or var not in visible for var in collect_ast(arg, "Variable")
+                ):
+                    log.info(f"Cannot inline {str(hpred)} into {str(atom)} as its arguments are not part of the tuple.")
+                    return atom
             # the weight disappears, it may only occur as the weight and inside the replaced literal
             if sum(map(lambda x: x == replace_elem.terms[0], collect_ast(replace_elem, "Variable"))) != 2:
                 return atom
@@ -475,7 +489,8 @@ class InlineTranslator:
         new_body: list[AST] = []
         for blit in orig.body:
             if blit.ast_type == ASTType.Literal and blit.atom.ast_type == ASTType.BodyAggregate:
-                new_body.append(blit.update(atom=self.inline_body_aggregate(stm, blit.atom, unique_vars)))
+                outer_vars = collect_binding_information_body([x for x in orig.body if x != blit])[0]
+                new_body.append(blit.update(atom=self.inline_body_aggregate(stm, blit.atom, unique_vars, outer_vars)))
             else:
                 new_body.append(blit)
         return orig.update(body=new_body)
